@@ -28,7 +28,9 @@ RULE = ("cases = (method, plan, dialogue cut, fault schedule, pre-existing forei
         "families present, DNS servers, excludes/port ranges, user/group, udp, resolvectl; every plan is run "
         "fault-free, cut after every line and inside lines, with STARTED unwritable, with every single k-th "
         "external command failing (k over the whole run, learnt from the fault-free run), with foreign chains/"
-        "rules and a second instance on another port present before or arriving during the session; a case is "
+        "rules and a second instance on another port present before or arriving during the session; plus signal "
+        "sequences (SIGHUP/SIGPIPE/SIGINT/SIGTERM, repeated) delivered to a real helper process after STARTED "
+        "before the control channel closes; a case is "
         "non-trivial when at least one firewall command was issued; distinct = distinct (method, dialogue, "
         "faults, prelude)")
 MANIFEST = dict(
@@ -50,7 +52,10 @@ MANIFEST = dict(
                 "exhaustive differential run and the oracle. tproxy holds for the repaired code "
                 "(fix commit a1baf82). Tear-down faults: checked by the oracle (other family "
                 "still restored, foreign part untouched, later session starts), not proved. pf: modelled in Lean "
-                "(unvalidated, from the manual pages), not yet driven by the harness. Signals/SIGKILL outside."),
+                "(unvalidated, from the manual pages), not yet driven by the harness. Signals: not a theorem; decided on a real "
+                "helper process on every run (real setup_daemon handlers, file-backed packet filter): SIGHUP/SIGPIPE ignored, "
+                "SIGINT/SIGTERM relayed to the client every time they arrive, rules restored once the control channel closes. "
+                "SIGKILL of the helper is outside (nothing can clean up)."),
     technique="Lean 4 proof (partial-state invariant + frame, Hoare rules over a fault schedule) + in-process differential "
               "run of the real firewall.main with exhaustive single-fault enumeration",
 )
@@ -1168,6 +1173,232 @@ def run_plan(ctx, box, lean, plan, budget):
     return cases
 
 
+
+# ------------------------------------------------------------------ exit path: signals to the helper
+
+# The helper must survive SIGHUP/SIGPIPE and must answer SIGINT/SIGTERM by relaying an interrupt to
+# the client, *every time*, staying alive until the control channel closes - only it can undo the
+# firewall changes.  This is a fact about real signal dispositions, so it is decided on a real
+# process: the real firewall.main with the real setup_daemon() (only is_admin_user says yes) runs in
+# a child python; its external commands go to a PyEnv whose canonical text is written to a file
+# after every command, so the state survives the child being killed.  The "client" whose pid is in
+# the GO line is a stand-in process that reports every SIGINT it gets, so the harness process
+# itself never receives a signal and installs no handler.
+
+SIGNAL_HELPER = r"""
+import os, sys
+sys.dont_write_bytecode = True
+harness, repo, method, statefile, hostsfile, resolvectl = sys.argv[1:7]
+os.environ['VERIF_REPO'] = repo
+sys.path.insert(0, harness)
+import common
+sys.path.insert(0, common.REPO)
+from props import c04
+import json, shutil
+prelude = json.loads(sys.argv[7])
+box = c04.Sandbox()
+shutil.rmtree(box.dir, ignore_errors=True)
+firewall = box.m['firewall']
+firewall.HOSTSFILE = hostsfile
+firewall.is_admin_user = lambda: True
+py = c04.PyEnv()
+for argv in prelude:
+    py.run(argv, b'', foreign=True)
+
+
+def dump():
+    with open(statefile + '.tmp', 'w') as f:
+        f.write(py.show() + '\n' + ' || '.join(py.pretty()) + '\n')
+    os.rename(statefile + '.tmp', statefile)
+
+
+class R(c04.Router):
+    def run(self, argv, stdin=b''):
+        r = c04.Router.run(self, argv, stdin)
+        dump()
+        return r
+
+
+box.router = R(py, None)
+box.resolvectl = resolvectl == '1'
+box.use_pf(method)
+dump()
+sys.stderr = open(os.devnull, 'w')
+firewall.main(c04.METHOD_MODULE[method], False)
+"""
+
+SIGNAL_STANDIN = r"""
+import signal, sys, time
+def h(signum, frame):
+    sys.stdout.write('INT\n'); sys.stdout.flush()
+signal.signal(signal.SIGINT, h)
+sys.stdout.write('up\n'); sys.stdout.flush()
+while True:
+    time.sleep(3600)
+"""
+
+
+def _read_line(f, timeout):
+    """One line from an unbuffered pipe, or None on timeout / b'' on EOF."""
+    import select
+    buf = b''
+    end = __import__('time').time() + timeout
+    while not buf.endswith(b'\n'):
+        left = end - __import__('time').time()
+        if left <= 0:
+            return None
+        r, _, _ = select.select([f], [], [], left)
+        if not r:
+            return None
+        c = os.read(f.fileno(), 1)
+        if not c:
+            return buf
+        buf += c
+    return buf
+
+
+def run_signal_case(case):
+    """case: dict(kind='signal', method, signals=[names], dialogue=[lines], prelude, resolvectl).
+    Returns dict(problems=[(key, expected, observed, note)], info=str)."""
+    import json
+    import signal
+    import subprocess
+    import time
+    method = case['method']
+    sigs = [getattr(signal, n) for n in case['signals']]
+    py0 = PyEnv()
+    for argv in case.get('prelude', []):
+        py0.run(argv, b'', foreign=True)
+    s0 = py0.show()
+    tmp = tempfile.mkdtemp(prefix='c04-signal-')
+    statefile = os.path.join(tmp, 'state')
+    hostsfile = os.path.join(tmp, 'hosts')
+    with open(hostsfile, 'w') as f:
+        f.write(HOSTS0)
+    standin = helper = None
+    problems = []
+    relayed = 0
+    notes = []
+    try:
+        standin = subprocess.Popen([sys.executable, '-S', '-c', SIGNAL_STANDIN], stdin=subprocess.DEVNULL,
+                                   stdout=subprocess.PIPE, stderr=subprocess.DEVNULL, bufsize=0)
+        if _read_line(standin.stdout, 10) != b'up\n':
+            raise RuntimeError('client stand-in did not start')
+        env = dict(os.environ, VERIF_REPO=common.REPO)
+        helper = subprocess.Popen(
+            [sys.executable, '-c', SIGNAL_HELPER, common.HERE, common.REPO, method, statefile, hostsfile,
+             '1' if case.get('resolvectl') else '0', json.dumps(case.get('prelude', []))],
+            stdin=subprocess.PIPE, stdout=subprocess.PIPE, stderr=subprocess.DEVNULL, bufsize=0, env=env)
+        line = _read_line(helper.stdout, 20)
+        if not line or not line.startswith(b'READY '):
+            raise RuntimeError('helper did not say READY: %r' % (line,))
+        dialogue = ''.join(case['dialogue']).replace('{pid}', str(standin.pid)).encode('ASCII')
+        helper.stdin.write(dialogue)
+        line = _read_line(helper.stdout, 20)
+        if line != b'STARTED\n':
+            raise RuntimeError('helper did not say STARTED: %r' % (line,))
+        with open(statefile) as f:
+            during = f.read().split('\n')[0]
+        if during == s0:
+            raise RuntimeError('set-up changed nothing; the case would be vacuous')
+        for n, sg in zip(case['signals'], sigs):
+            if helper.poll() is not None:
+                break
+            os.kill(helper.pid, sg)
+            if sg in (signal.SIGTERM, signal.SIGINT):
+                # the helper relays an interrupt to the client; wait until it did (or died)
+                end = time.time() + 5
+                got = None
+                while time.time() < end and helper.poll() is None and got is None:
+                    got = _read_line(standin.stdout, 0.05)
+                if got == b'INT\n':
+                    relayed += 1
+                else:
+                    notes.append('%s not relayed' % n)
+            time.sleep(0.1)       # let the handler return before the next signal
+        # the client reacts: it closes the control channel
+        try:
+            helper.stdin.close()
+        except (IOError, OSError):
+            pass
+        try:
+            helper.wait(timeout=15)
+        except subprocess.TimeoutExpired:
+            helper.kill()
+            helper.wait()
+            notes.append('helper did not finish after the channel closed')
+        with open(statefile) as f:
+            txt = f.read().split('\n')
+        final, pretty = txt[0], (txt[1] if len(txt) > 1 else '')
+        with open(hostsfile) as f:
+            hosts = f.read()
+        rc = helper.returncode
+        want_relays = sum(1 for sg in sigs if sg in (signal.SIGTERM, signal.SIGINT))
+        if final != s0:
+            if rc is not None and rc < 0:
+                key = 'C04:signal:second-signal-kills-helper-before-restore' if len(sigs) > 1 else \
+                    'C04:signal:signal-kills-helper-before-restore'
+            else:
+                key = 'C04:signal:rules-not-restored'
+            problems.append((key, 'configuration after the helper is gone == configuration before the session',
+                             'helper exit status %r (negative = killed by that signal); configuration after: %s'
+                             % (rc, pretty or '(see state)'),
+                             'signals %s delivered to the helper after STARTED, then the control channel closed; '
+                             '%d of %d interrupts relayed to the client' % (case['signals'], relayed, want_relays)))
+        elif rc != 0 or relayed != want_relays or hosts != HOSTS0:
+            problems.append(('C04:signal:helper-did-not-relay-and-finish',
+                             'exit status 0, %d interrupts relayed, hosts file as before' % want_relays,
+                             'exit status %r, %d relayed, hosts file %s; %s'
+                             % (rc, relayed, 'as before' if hosts == HOSTS0 else 'changed', '; '.join(notes)),
+                             'signals %s delivered to the helper after STARTED' % (case['signals'],)))
+        info = 'signals=%s relayed=%d/%d helper-exit=%r restored=%s' % (
+            case['signals'], relayed, want_relays, rc, final == s0)
+        return dict(problems=problems, info=info, commands=during != s0)
+    finally:
+        for pr in (helper, standin):
+            if pr is not None and pr.poll() is None:
+                pr.kill()
+                pr.wait()
+        for pr in (helper, standin):
+            if pr is not None:
+                for fh in (pr.stdin, pr.stdout):
+                    try:
+                        if fh is not None:
+                            fh.close()
+                    except (IOError, OSError):
+                        pass
+        shutil.rmtree(tmp, ignore_errors=True)
+
+
+def signal_cases(ctx):
+    dialogue = ['ROUTES\n', '2,24,0,1.2.3.0,0,0\n', '10,64,0,2404:6800:4004:80c::,0,0\n', 'NSLIST\n',
+                '2,1.2.3.33\n', 'PORTS 12300,12301,12302,12303\n', 'GO 0 - - 0x01 {pid}\n']
+    seqs = [('nat', ['SIGHUP', 'SIGTERM', 'SIGTERM']), ('tproxy', ['SIGINT', 'SIGINT'])]
+    if ctx.thorough:
+        seqs += [('nft', ['SIGTERM', 'SIGINT', 'SIGTERM']), ('nat', ['SIGPIPE', 'SIGINT', 'SIGTERM', 'SIGINT']),
+                 ('tproxy', ['SIGTERM']), ('nat', ['SIGHUP', 'SIGHUP', 'SIGPIPE']), ('nft', ['SIGINT', 'SIGINT', 'SIGINT'])]
+    for method, names in seqs:
+        yield dict(kind='signal', method=method, signals=names, dialogue=dialogue,
+                   prelude=FOREIGN_PRELUDE[:4], resolvectl=False)
+
+
+def run_signals(ctx):
+    for case in signal_cases(ctx):
+        try:
+            r = run_signal_case(case)
+        except RuntimeError as e:
+            ctx.notes.append('signal case %s/%s could not be set up: %s' % (case['method'], case['signals'], e))
+            ctx.hist('signal:not-run')
+            continue
+        ctx.count()
+        ctx.mark(('signal', case['method'], tuple(case['signals'])), True)
+        ctx.hist('signal:' + '+'.join(case['signals']))
+        if len(ctx.samples) < 8:
+            ctx.samples.append(dict(kind='signal', method=case['method'], signals=case['signals'], real_code=r['info']))
+        for key, exp, obs, note in r['problems']:
+            ctx.violation(key, case=case, expected=exp, observed=obs, note=note, kind='ops')
+
+
 METHODS_QUICK = ['nat', 'tproxy', 'nft']
 
 
@@ -1224,6 +1455,7 @@ def start_driver():
 
 
 def run(ctx):
+    run_signals(ctx)
     box = Sandbox()
     lean = None
     try:
@@ -1305,6 +1537,9 @@ def validate_env_in_netns(ctx, samples):
 
 
 def replay(ctx, rep):
+    if rep['case'].get('kind') == 'signal':
+        r = run_signal_case(rep['case'])
+        return bool(r['problems']), r['info'] + ''.join('; %s: %s' % (p[0], p[2]) for p in r['problems'])
     case = Case.from_json(rep['case'])
     box = Sandbox()
     try:
